@@ -67,6 +67,13 @@ def gen_case(r, index, tier):
             m.pop("aspect", None)
             if r.chance(0.5):
                 m.pop("center", None)
+            # a partially shaped soft block: a seed rectangle that covers only part of (rarely all of) the declared area
+            if r.chance(0.2):
+                side = 1 if m["area"] < 4 or r.chance(0.7) else 2
+                if m["area"] >= side * side and W > side and H > side:
+                    x, y = r.randint(0, W - side), r.randint(0, H - side)
+                    m["boxes"] = [(x, y, x + side, y + side)]
+                    m.pop("center", None)
     ntr = r.weighted([(0, 1), (1, 4), (2, 2), (3, 1), (4, 1)])
     trials = []
     # the same netlist is also placed on a second, larger die in the same process (a flow that tries several die shapes):
